@@ -9,10 +9,12 @@ package main
 //                      Write errors of other writers (a full disk behind os.Stdout) are NOT modelled.
 //   []byte             the same bytes as the string it is converted from/to (Syn.GoString); `[]byte(s)` is the identity
 //   fmt.Fprintf(w, f, a…)   formats into a buffer and calls w.Write ONCE with it (fmt/print.go Fprintf): the bytes are built from the
-//                      constant format (literal pieces, %s, %Ns, %-Ns, %*s, %-*s of strings, %c %d %q as in Sprintf), then written
+//                      constant format (literal pieces, %s, %Ns, %-Ns of strings, %c %d %q as in Sprintf; a `*` width is outside the
+//                      subset: fmt rejects widths above 10^6 with %!(BADWIDTH), which is how knut lost its %-*s), then written
 //                      through the io.Writer, resp. through the translated method Write of the struct w points to
 //   io.WriteString(w, s)    w.Write([]byte(s)) (the translator checks that the type of w has no method WriteString)
 //   strings.Join, utf8.RuneCountInString   Syn.Strings.Join, Syn.RuneCountInString
+//   strings.Repeat(s, n)    Syn.Strings.Repeat in the Outcome monad (a negative count panics)
 //   fmt.Errorf(f, a…)  the case GoError.fmt_Errorf f of the error sum: the constant format only, the (pure) operands are dropped
 //   switch d := x.(type)    `match` on the closed sum GoAny; every case names one struct type and leaves the function
 //   v, ok := x.(T)     `match` on GoAny: (the value, true) or (the zero value of T, false)
@@ -49,7 +51,7 @@ func init() {
 	add("unicode/utf8", "func RuneCountInString(", "func RuneCountInString(s string) int")
 
 	tsUnits = append(tsUnits, &tsUnit{pkg: "lib/syntax/printer", mod: "Printer", funcs: []string{
-		"New", "Printer.Write", "Printer.printAccrual", "Printer.printPosting", "Printer.printOpen", "Printer.printClose", "Printer.printPrice",
+		"New", "Printer.Write", "padRight", "Printer.printAccrual", "Printer.printPosting", "Printer.printOpen", "Printer.printClose", "Printer.printPrice",
 		"Printer.printInclude", "Printer.printAssertion", "Printer.printTransaction", "Printer.printDirective", "Printer.PrintDirective",
 		"Printer.Initialize", "Printer.Format",
 	}})
@@ -297,15 +299,10 @@ func (c *tsCtx) tspFormat(x *ast.CallExpr, fi int) string {
 			minus = "true"
 			i++
 		}
-		width := "" // "" none, "*" operand, digits
+		width := "" // "" none, "n" digits
 		wval := ""
 		if i < len(format) && format[i] == '*' {
-			wa := next()
-			if b, ok := c.typeOf(wa).(*types.Basic); !ok || b.Kind() != types.Int {
-				trFail(wa.Pos(), "a width operand of type %s is outside the subset (int only)", c.typeOf(wa))
-			}
-			width, wval = "*", c.expr(wa)
-			i++
+			trFail(x.Pos(), "format: a width taken from an operand (`*`) is outside the subset")
 		} else {
 			j := i
 			for j < len(format) && format[j] >= '0' && format[j] <= '9' {
@@ -333,8 +330,6 @@ func (c *tsCtx) tspFormat(x *ast.CallExpr, fi int) string {
 		switch {
 		case verb == 's' && plainString(ty) && simple:
 			parts = append(parts, "Syn.Fmt.s "+c.expr(a))
-		case verb == 's' && plainString(ty) && width == "*":
-			parts = append(parts, "Syn.Fmt.sStar "+minus+" "+wval+" "+c.expr(a))
 		case verb == 's' && plainString(ty) && width == "n":
 			parts = append(parts, "Syn.Fmt.sW "+minus+" "+wval+" "+c.expr(a))
 		case verb == 'c' && isRune && simple:
@@ -366,6 +361,9 @@ func (c *tsCtx) tspPreludeCall(full string, x *ast.CallExpr) (string, bool) {
 		return "(Syn.Strings.Join " + c.expr(x.Args[0]) + " " + c.expr(x.Args[1]) + ")", true
 	case "unicode/utf8.RuneCountInString":
 		return "(Syn.RuneCountInString " + c.expr(x.Args[0]) + ")", true
+	case "strings.Repeat":
+		a, b := c.expr(x.Args[0]), c.expr(x.Args[1])
+		return c.hoist("Syn.Strings.Repeat "+a+" "+b, x.Pos()), true
 	case "fmt.Errorf":
 		tv := c.info().Types[x.Args[0]]
 		if tv.Value == nil || tv.Value.Kind() != constant.String || !isValidUTF8(constant.StringVal(tv.Value)) {
@@ -578,3 +576,6 @@ func (c *tsCtx) tspIsMutCall(e ast.Expr) bool {
 	ci := c.resolveCall(call)
 	return ci.tf != nil && len(ci.tf.mut) > 0
 }
+
+// tspEffectCall: calls of the prelude that live in the Outcome monad (for the effect analysis)
+func tspEffectCall(full string) bool { return full == "strings.Repeat" }
